@@ -110,14 +110,17 @@ func ObserveDir(root string, s *Script, sizes map[int][]int64) string {
 			mode = "ro"
 		}
 		switch {
-		case nm == "L":
+		case nm == "L" || nm == "LT":
 			var l struct {
 				V string `json:"imageLayoutVersion"`
 			}
-			if json.Unmarshal(data, &l) == nil && l.V == "1.0.0" {
-				toks = append(toks, "F:L=ok")
-			} else {
-				toks = append(toks, "F:L=bad")
+			switch {
+			case len(data) == 0:
+				toks = append(toks, "F:"+nm+"=empty")
+			case json.Unmarshal(data, &l) == nil && l.V == "1.0.0":
+				toks = append(toks, "F:"+nm+"=ok")
+			default:
+				toks = append(toks, "F:"+nm+"=bad")
 			}
 		case nm == "I" || nm == "IT":
 			toks = append(toks, "F:"+nm+"="+describeIndex(data, n))
